@@ -54,6 +54,11 @@ var c15Progs = []c15Prog{
 	{"nested-loops", `BEGIN { for (i = 0; i < 60; i++) for (j = 0; j < 40; j++) if (i != j) c++; print c }`, ""},
 	{"forin-in-func", `function sum(arr,   k, t) { for (k in arr) t += arr[k]; return t } BEGIN { for (i = 0; i < 300; i++) a[i] = i; for (r = 0; r < 6; r++) s += sum(a); print s }`, ""},
 	{"error-after", `BEGIN { for (i = 0; i < 2500; i++) s += i; print s; x = 1 / 0 }`, ""},
+	{"error-early", `BEGIN { x = 1 / 0 }`, ""},
+	{"error-in-func", `function f(n) { return 1 / (n - 40) } BEGIN { for (i = 0; i < 100; i++) s += f(i); print s }`, ""},
+	{"error-in-rule", `{ s += 1 / (25 - NR); print s }`, c15Input(40)},
+	{"error-in-end", `{ n++ } END { for (i = 0; i < 50; i++) s += i; print s; x = 1 / (n - 20) }`, c15Input(20)},
+	{"error-in-forin", `BEGIN { for (i = 0; i < 30; i++) a[i] = 15 - i; for (k in a) s += 1 / a[k]; print s }`, ""},
 	{"exit-in-loop", `BEGIN { for (i = 0; ; i++) if (i > 2500) exit 4 } END { for (j = 0; j < 1500; j++) t += j; print t }`, ""},
 }
 
@@ -157,8 +162,10 @@ func c15CancelAt(c *core.Ctx, p c15Prog, prog *parser.Program, base c15Base, k i
 		}
 		return
 	}
-	// not the context error: only acceptable if the program ran to its normal end within the allowed steps
-	if got == base.out && st == base.status && (err != nil) == base.err {
+	// not the context error: only acceptable if the program ran to its normal,
+	// error-free end within the allowed steps. A run that fails after the
+	// cancellation must report the context's error, not the secondary one.
+	if err == nil && got == base.out && st == base.status && !base.err {
 		return
 	}
 	c.Fail(sig("wrong-result-after-cancel"), cs, fmt.Sprintf("err=%v status=%d out=%q (baseline err=%v status=%d)", err, st, trunc(got, 80), base.err, base.status))
@@ -239,7 +246,7 @@ func c15Run(c *core.Ctx) {
 				c.NoteMax("max_steps_after_cancel", int64(steps))
 				if steps > c15AlarmSteps {
 					c.Fail("late-stop:"+kind+":prog="+p.Name, cs, fmt.Sprintf("%d steps with an already finished context", steps))
-				} else if !errors.Is(err, want) && !(out.String() == base.out && st == base.status && (err != nil) == base.err) {
+				} else if !errors.Is(err, want) && !(err == nil && out.String() == base.out && st == base.status && !base.err) {
 					c.Fail("wrong-result:"+kind+":prog="+p.Name, cs, fmt.Sprintf("err=%v want %v", err, want))
 				}
 			}
@@ -446,11 +453,12 @@ func init() {
 	core.Register(&core.Check{
 		ID:    "C15",
 		Level: "model_checking",
-		Rule: "deviation-bounded environment exploration: for 14 programs (tight loop, nested calls, recursion, for-in, main-loop rules, END loop, pending printf output, getline loop, error/exit after loops) the context is cancelled before VM step k for every k<=300 + every 7th k<=3000 + every 61st up to the end (thorough: every k<=3000 + every 7th), with unbuffered and bufio-wrapped output, plus pre-cancelled and expired contexts; " +
+		Rule: "deviation-bounded environment exploration: for 19 programs (tight loop, nested calls, recursion, for-in, main-loop rules, END loop, pending printf output, getline loop, exit after loops, runtime error in BEGIN / function / rule / END / for-in body) the context is cancelled before VM step k for every k<=300 + every 7th k<=3000 + every 61st up to the end (thorough: every k<=3000 + every 7th), with unbuffered and bufio-wrapped output, plus pre-cancelled and expired contexts; " +
 			"for 5 programs waiting on child processes (system, cmd|getline, print|cmd+close, inside a function/loop, in END) every placement of the cancel among the scheduling points of the virtual process world up to 2 (thorough 3) deviations; never-cancelled ExecuteContext vs Execute on the C01 misc/builtins/calls/control program space; " +
 			"state = one program, transition = one execution; distinct = distinct (program, steps-after-cancel bucket, result)",
 		Assumptions: []string{
 			"alarm threshold for 'a fixed small number (about a thousand)' of further steps is 1500 (the code polls every 1000 instructions); the measured maximum is reported as note_max_steps_after_cancel",
+			"a run that ends with a non-context error after the cancellation is a violation (the context's error is preferred over secondary errors); only an error-free normal end within the step allowance is accepted in place of the context's error",
 			"a VM step = one iteration of the dispatch loop (hook spliced in by the overlay)",
 			"child processes are the vexec model; CommandContext kills the child when the context is done; WaitDelay is not modelled",
 		},
